@@ -240,13 +240,71 @@ def check_api_meta(ctx):
 NA_ = -999999999
 
 
+def check_dictops(ctx):
+    """utils.dict_update / dict_depth on every pair of trees of depth <= 2 over two keys and two leaf values, plus a few
+    three-key / depth-3 ones; dict, OrderedDict and mixed mappings"""
+    import copy
+    import itertools
+    from collections import OrderedDict
+    import qcexec  # noqa: F401
+    from ioos_qc.utils import dict_depth, dict_update
+
+    def nodes_over(T, keys):
+        out = []
+        for r in range(len(keys) + 1):
+            for S in itertools.combinations(keys, r):
+                for vals in itertools.product(T, repeat=len(S)):
+                    out.append(dict(zip(S, vals)))
+        return out
+    L0 = [1, 2]
+    L1 = L0 + nodes_over(L0, ["a", "b"])
+    L2 = L1 + nodes_over(L1, ["a", "b"])
+    deep = [{"a": {"b": {"c": 1}}}, {"a": {"b": {}}, "c": 2}, {"c": {"a": {"a": 2}}, "a": 1}, {"a": {"b": {"c": {}}}}]
+
+    def enc(t):
+        if isinstance(t, dict):
+            return {"k": "node", "m": [[k, enc(t[k])] for k in sorted(t)]}
+        return {"k": "leaf", "v": t}
+
+    def conv(t, kind):
+        if isinstance(t, dict):
+            cls = OrderedDict if kind == "odict" else dict
+            return cls((k, conv(v, kind)) for k, v in t.items())
+        return t
+    events = []
+    pairs = [(d, u) for d in L2 for u in L2 if isinstance(u, dict)] + [(d, u) for d in deep + L1 for u in deep]
+    for n, (d0, u0) in enumerate(pairs):
+        d, u = conv(copy.deepcopy(d0), ["dict", "odict"][n % 2]), conv(copy.deepcopy(u0), ["dict", "dict", "odict"][n % 3])
+        e = {"id": len(events) + 1, "d": enc(d0), "u": enc(u0), "out": enc(0), "uafter": enc(0), "inplace": False,
+             "depth_d": -1, "depth_out": -1, "exc": ""}
+        try:
+            e["depth_d"] = dict_depth(d)
+            out = dict_update(d, u)
+            e["out"], e["uafter"], e["inplace"] = enc(out), enc(u), out is d
+            e["depth_out"] = dict_depth(out)
+        except Exception as ex:  # noqa: BLE001
+            e["exc"] = type(ex).__name__
+        events.append(e)
+    import tlc
+    res = tlc.run_tlc("MC_DictOps", cfg="MC_DictOps.cfg", workers=core.NCPU, tag="X_dictops_mc", timeout=1200)
+    tlc.require_clean(res, "MC_DictOps")
+    if res["invariant_violated"]:
+        raise tlc.MachineryError("MC_DictOps: a law of the merge is violated: %r" % res["invariant_violated"])
+    ctx.log("MC MC_DictOps: %d distinct states, laws Idempotent / UpdateWins / Neutral / KeysUnion / DepthBound / "
+            "AssociativeIfNoClash hold" % res.get("states", 0))
+    rejects = core.validate_parallel(ctx, events, "Trace_DictOps", "dictops", session_key="none", chunk=2500)
+    by = {e["id"]: e for e in events}
+    return [(by[i], cl) for i, cl in rejects], len(events)
+
+
 def run():
     ctx = core.Ctx("X-extra", "quick", 20261002)
     rc = 0
     for name, fn in (("Config container API (ConfigOps.tla)", check_configops), ("utils.check_timestamps (TimeUtil.tla)", check_timestamps),
                      ("2-D inputs keep their shape (Trace_Qc, recall)", check_2d),
                      ("global ioos_qc_config attribute wins over per-variable attributes (Trace_Config)", check_global_attr_precedence),
-                     ("flag metadata of the test functions, stream accessors (ApiMeta.tla)", check_api_meta)):
+                     ("flag metadata of the test functions, stream accessors (ApiMeta.tla)", check_api_meta),
+                     ("utils.dict_update / dict_depth (DictOps.tla)", check_dictops)):
         owned, n = fn(ctx)
         ctx.log("%s: %d events, %d rejected clauses" % (name, n, len(owned)))
         for e, cl in owned[:6]:
